@@ -437,6 +437,7 @@ class CtlQueue:
         pass
 
     def put(self, m, block=True, timeout=None):
+        _check_timeout(timeout if block else None)
         ex = self._ctl()
         if ex is None:
             if self._is_full():
@@ -467,6 +468,7 @@ class CtlQueue:
         ex.record(("put_nowait", msgid(m)))
 
     def get(self, block=True, timeout=None):
+        _check_timeout(timeout if block else None)
         ex = self._ctl()
         if ex is None:
             if self.items:
@@ -547,6 +549,7 @@ class CtlEvent:
         self._flag = False
 
     def wait(self, timeout=None):
+        _check_timeout(timeout)
         ex = self._ctl()
         if ex is None:
             return self._flag
@@ -557,6 +560,13 @@ class CtlEvent:
         ex.hb_acquire(self._vc)
         ex.record(("wait", True))
         return True
+
+
+def _check_timeout(timeout):
+    """What the real primitives do with their timeout argument before waiting: a negative number is a ValueError,
+    something that is no number at all a TypeError."""
+    if timeout is not None and timeout < 0:
+        raise ValueError("'timeout' must be a non-negative number")
 
 
 class CtlLock:
@@ -631,6 +641,7 @@ def ctl_start(self):
 
 
 def ctl_join(self, timeout=None):
+    _check_timeout(timeout)
     ex = Execution.cur
     if ex is None or ex.me() is None or ex.abort:
         return
